@@ -59,7 +59,9 @@ func runC15(tier string) int {
 			"movement" + m[2] + " " + ns[1] + " {\n\tu\n\td\n}\n",
 			"mart" + m[3] + " " + ns[2] + " {\n\tI1\n\tITEM_NONE\n\tI2\n}\n",
 			"mapscripts" + m[4] + " Map {\n\tON_RESUME: S\n\tON_LOAD {\n\t\tif (flag(B)) {\n\t\t\tmsgbox(\"map\")\n\t\t}\n\t\tL3" + lm + ":\n\t}\n\tON_FRAME [\n\t\tVAR_A, 0: S\n\t\tVAR_A, 1 {\n\t\t\tmsgbox(\"tab\")\n\t\t\tif (flag(C)) {\n\t\t\t\tz\n\t\t\t}\n\t\t}\n\t]\n\tON_TRANSITION {\n\t\tapplymovement(2, moves(l r))\n\t}\n}\n",
-			"text(local) TLong {\n\t\"intro\\p\"\n\t\"hello\"\n}\ntext(global) TLong2 {\n\t\"other\\n\"\n\t\"s2b\"\n}\n",
+			"text(local) TLong {\n\t\"intro\\p\"\n\t\"hello\"\n}\ntext(global) TLong2 {\n\t\"other\\n\"\n\t\"s2b\"\n}\n" +
+				// names that differ from other names of the file only in letter case, with the opposite scope
+				"text tlong {\n\t\"lower case one\"\n}\ntext(local) TLONG2 {\n\t\"upper case two\"\n}\nmovement(global) s2 {\n\tcs1\n}\nmart(global) MAP {\n\tI9\n}\nmart map {\n\tI8\n}\n",
 			"script S2 {\n\tmsgbox(\"s2a\")\n\tmsgbox(\"s2b\")\n\tapplymovement(3, moves(u d))\n\tapplymovement(4, moves(l r))\n}\n",
 		}
 		if order >= 7 {
@@ -82,7 +84,7 @@ func runC15(tier string) int {
 		}
 		want := map[string]bool{ // name -> exported?
 			"S": c15Global(m[0], true), ns[0]: c15Global(m[1], true), ns[1]: c15Global(m[2], false), ns[2]: c15Global(m[3], false), "Map": c15Global(m[4], true),
-			"TLong": false, "TLong2": true, "PL": pv == "A", "PM": pv != "A", "L1": c15Global(lm, false), "L2": false, "L3": c15Global(lm, false), "S2": true,
+			"TLong": false, "TLong2": true, "tlong": true, "TLONG2": false, "s2": true, "MAP": true, "map": false, "PL": pv == "A", "PM": pv != "A", "L1": c15Global(lm, false), "L2": false, "L3": c15Global(lm, false), "S2": true,
 			"Map_ON_LOAD": false, "Map_ON_FRAME": false, "Map_ON_FRAME_1": false, "Map_ON_TRANSITION": false,
 		}
 		// (the two hoisted movements are shared between scripts: which script owns them depends on the statement order; they are counted below)
@@ -276,5 +278,5 @@ func runC15(tier string) int {
 	}
 	r.Assume("documented defaults: script, text, mapscripts global; movement, mart local; labels inside scripts local; every generated label local")
 	return r.Finish(r.Get("evaluations"), r.Get("nontrivial"),
-		"the full finite product {script, text, movement, mart, mapscripts} x {no modifier, (global), (local)} (3^5) x in-script label modifier (3) x 14 statement orders (every rotation, forwards and backwards; two moves() lists occur twice in the file; two multi-part texts end in the lines of shorter texts) x optimize on/off x which alternative of two poryswitches (the same label name with different modifiers in the two cases) is compiled x 3 sets of names for the explicit data statements (plain, and shaped like generated hoisted / sub-label / map-script names of scripts that do not exist); the file forces every generated label kind (sub-labels of if/while/switch, hoisted text and movement, inline map script, table, table inline script and their hoisted data); every label definition of the output is classified by the naming scheme and must have the expected scope; plus every identifier-like literal of the compiler's own source as the name of each statement kind and of a label, under every modifier; plus every program of the control-flow families (C01 / C03 / C04 bounds) x script modifier x optimize: script label per modifier, every other label local; plus, for every statement template, a second script named S_1 .. S_9 (like a sub-label of the first) before / after it under every modifier: wherever every label is still defined once it is exported like any script; non-trivial = at least one explicit modifier")
+		"the full finite product {script, text, movement, mart, mapscripts} x {no modifier, (global), (local)} (3^5) x in-script label modifier (3) x 14 statement orders (every rotation, forwards and backwards; two moves() lists occur twice in the file; two multi-part texts end in the lines of shorter texts; five statements whose names differ from other names of the file only in letter case and have the opposite scope) x optimize on/off x which alternative of two poryswitches (the same label name with different modifiers in the two cases) is compiled x 3 sets of names for the explicit data statements (plain, and shaped like generated hoisted / sub-label / map-script names of scripts that do not exist); the file forces every generated label kind (sub-labels of if/while/switch, hoisted text and movement, inline map script, table, table inline script and their hoisted data); every label definition of the output is classified by the naming scheme and must have the expected scope; plus every identifier-like literal of the compiler's own source as the name of each statement kind and of a label, under every modifier; plus every program of the control-flow families (C01 / C03 / C04 bounds) x script modifier x optimize: script label per modifier, every other label local; plus, for every statement template, a second script named S_1 .. S_9 (like a sub-label of the first) before / after it under every modifier: wherever every label is still defined once it is exported like any script; non-trivial = at least one explicit modifier")
 }
